@@ -373,6 +373,36 @@ func check(args []string) int {
 	}
 	sort.Strings(ns)
 	writeEvidence(*verif, *prop, *tier, seed, cov, ns, w, time.Since(t0).Seconds(), violations, *noEvidence, w)
+	// the slowest obligations of this run (reported in evidence: a goal that needs a large
+	// share of the budget is a candidate for restructuring before it becomes unstable)
+	type slowRec struct {
+		Name   string  `json:"obligation"`
+		Solver string  `json:"backend"`
+		Time   float64 `json:"seconds"`
+	}
+	var slow []slowRec
+	for _, r := range runs {
+		for _, or := range r.rs {
+			if or != nil && oblHasProp(or.Obl, *prop) && !or.Cached {
+				slow = append(slow, slowRec{or.Obl.Name, or.Solver, or.Time})
+			}
+		}
+	}
+	sort.Slice(slow, func(i, j int) bool { return slow[i].Time > slow[j].Time })
+	if len(slow) > 8 {
+		slow = slow[:8]
+	}
+	if os.Getenv("IONVC_SLOW") != "" {
+		fmt.Printf("  load %.1fs\n", w.LoadTime.Seconds())
+		for _, r := range runs {
+			if r.gen+r.sol > 2 {
+				fmt.Printf("  target %-40s gen %.1fs solve %.1fs (%d obligations)\n", r.tr.Name, r.gen, r.sol, len(r.tr.Obls))
+			}
+		}
+		for _, sr := range slow {
+			fmt.Printf("  slow: %6.2fs %-9s %s\n", sr.Time, sr.Solver, sr.Name)
+		}
+	}
 	fmt.Printf("property %s: %d obligations, %d discharged, %d known findings, %d violations, %.1fs\n", *prop, total, discharged, len(knownPrinted), violations,
 		time.Since(t0).Seconds())
 	if violations > 0 {
